@@ -1,0 +1,11 @@
+//go:build verif
+
+package core
+
+// Contracts for govc (/verif). Comment-only file: no executable code, not part of the default build.
+
+/*@
+func MaxUint32(a uint32, b uint32) (r uint32)
+  ensures r == max(a, b)
+  assigns nothing
+@*/
